@@ -478,7 +478,7 @@ def check(ctx):
         keyed = [(c, c.args[1]) for c in calls if (dotted(c.func) or "").split(".")[-1] == "set_child_error" and len(c.args) >= 2]
         # a direct store `errors[key] = <error>` (the dict is known to exist) locates an error like set_child_error does
         handler_names = {h.name for h in ast.walk(fn) if isinstance(h, ast.ExceptHandler) and h.name}
-        for a in walk_no_nested(fn):
+        for a in (walk_no_nested(fn) if fi.module.name == DESER_MOD else ()):
             if isinstance(a, ast.Assign) and len(a.targets) == 1 and isinstance(a.targets[0], ast.Subscript) and isinstance(a.targets[0].value, ast.Name) \
                     and ((isinstance(a.value, ast.Name) and a.value.id in handler_names) or (isinstance(a.value, ast.Call) and (dotted(a.value.func) or "").split(".")[-1] == "ValidationError")):
                 keyed.append((a, a.targets[0].slice))
